@@ -244,6 +244,12 @@ func vfDrawC01Conf(t *rapid.T) (c *vfC01Conf) {
 	for i := 0; i < ns; i++ {
 		c.Subjects = append(c.Subjects, vfDrawDomain(t, fmt.Sprintf("subj%d", i)))
 	}
+	if rapid.IntRange(0, 3).Draw(t, "rules_about_a_service_domain") == 0 {
+		// rules (allow rules among them) about a name that a blockable service
+		// owns: a rule that allows outranks the service
+		id := rapid.SampledFrom(vfServiceIDs).Draw(t, "service_subject")
+		c.Subjects = append(c.Subjects, vfServiceDomains[id][0])
+	}
 
 	if rapid.IntRange(0, 2).Draw(t, "has_client") > 0 {
 		cl := &vfC01Client{Name: "kid laptop"}
